@@ -17,3 +17,17 @@ META["C12"] = dict(
          "Refuted/C12_pinned.v machine-checks that the pinned float accumulator violated this (witness in the corpus). The stepper is tied to the code by exact per-sub-tick differential testing with scripted oracles.",
     note="Trusted: Coq kernel; extraction + driver; Go harness; no int wrap-around (rate*1 + acc < 2^63). The rate function and random source are oracles (Section-style parameters), so the theorem holds for any behaviour of theirs within the stated sign constraints.",
 )
+
+META["C10"] = dict(
+    design_ref="DESIGN.md section 5, C10",
+    technique="Coq proof by induction over query lists that the stateful stage cursor refines a stateless reference (all stage lists, zero-length stages, any non-decreasing times); shape lemmas proved for any interpolation term with four elementary facts; bit-exact differential correspondence of CalculateStagedRate/CalculateRampRate against the extracted binary64 (Flocq) model, plus primitive-level correspondence of Go float64 ops",
+    text="Theorems C10_cursor_refines(+default_start), C10_selected_stage, C10_chained, C10_zero_after_end, C10_total_duration, C10_ramp_refines, C10_ramp_zero_after hold for the binary64 model as it is. C10_within_targets_partial, C10_monotone_in_stage_partial, C10_ramp_shape_partial are proved for every interpolation term satisfying interp_facts; that the binary64 term satisfies them (and is within 1 of the exact rational value) is checked on every output of the implementation by the extracted predicate interp_ok, not proved.",
+    note="Trusted: Coq kernel + standard real-number/classical axioms that Flocq's definitions carry (listed per theorem in the evidence); extraction + driver; harness. Partial: float-level shape facts (see text). Negative durations and non-monotone query times are outside the statement.",
+)
+
+META["C13"] = dict(
+    design_ref="DESIGN.md section 5, C13",
+    technique="Coq proof on the exact layer (telescoping sum and a contraction bound on the carried balance, by induction over ticks, nia) for every admissible run, i.e. every random outcome; bit-exact differential correspondence of api.WithJitter against the extracted binary64 model with the math/rand source mirrored; admissibility predicate evaluated on every run of the implementation",
+    text="Theorems C13_identity, C13_telescope_partial, C13_bounded_partial, C13_nonneg_partial, C13_checker_sound: for jitter below 100% and rates in [0,R], in every admissible run the difference between requested and emitted totals is the carried balance and stays within (jn*R+jd)/(jd-jn) at every prefix, outputs are non-negative, zero jitter is the identity. Admissibility (each value within jitter% + 1 of rate+balance; exact carry) of what the binary64 code emits is checked per run by jit_ok, not proved (float rounding).",
+    note="Trusted: Coq kernel (+ axioms carried by Flocq definitions for theorems mentioning the float model); math.Cos and math/rand are oracles taken from the run; extraction + driver; harness. Partial: link between float layer and exact layer is checked, not proved.",
+)
